@@ -13,7 +13,7 @@ Section NbWindows.
   Definition nquiet (e : nenv) : Prop := n_fault e = None.
   Lemma ncall_quiet e what : n_fault e = None ->
     ncall_radio e what = ({| n_calls := n_calls e + 1; n_fault := None; n_trace := what :: n_trace e |}, true).
-  Proof. intros H. unfold ncall_radio. rewrite H. reflexivity. Qed.
+  Proof. intros H. unfold ncall_radio, nfaulty. rewrite H. reflexivity. Qed.
 
   Definition t_rx1 (m : mac) (ms : N) : N := Z.to_N ((Z.of_N (cf_rx1_delay (m_cfg m)) + Z.of_N ms + rx_offset) mod 4294967296).
 
